@@ -3,6 +3,8 @@ package props
 import (
 	"fmt"
 	"github.com/tobgu/qframe/config/groupby"
+	"os"
+	"strconv"
 	"testing"
 
 	"github.com/tobgu/qframe"
@@ -157,4 +159,53 @@ func TestC05(t *testing.T) {
 		}
 		evC05.Case(nontrivialGroups(groups), desc, classes...)
 	})
+}
+
+// TestC05Large: Distinct over tens of thousands (thorough: more than a million) of distinct keys, each carried by two or three
+// rows that lie far apart, on a frame that is not in storage order; int, string and two-column keys. Every key exactly
+// once, every returned row an input row.
+func TestC05Large(t *testing.T) {
+	seed, _ := strconv.ParseUint(os.Getenv("VERIF_SHARD_SEED"), 10, 64)
+	sizes := []int{33_000, 70_000, 140_000}
+	if tier() == "thorough" {
+		sizes = []int{33_000, 70_000, 140_000, 300_000, 1_200_000}
+	}
+	rng := hx.SplitMix(seed)
+	for _, nkeys := range sizes {
+		mul := int(rng.Next()%1000)*2 + 1
+		off := int(rng.Next() % 1_000_000)
+		n := 2*nkeys + nkeys/3
+		k, v, id := make([]int, n), make([]int, n), make([]int, n)
+		s, b := make([]string, n), make([]bool, n)
+		for i := 0; i < n; i++ {
+			key := (i % nkeys) * mul
+			k[i] = key + off
+			s[i] = "key-" + strconv.Itoa(k[i])
+			b[i] = (i%nkeys)%2 == 0
+			v[i] = int(rng.Next() % 1000)
+			id[i] = i
+		}
+		qf := qframe.New(map[string]interface{}{"k": k, "v": v, "id": id, "s": s, "b": b}).Sort(qframe.Order{Column: "v"})
+		for _, keys := range [][]string{{"k"}, {"s"}, {"b", "k"}} {
+			dist := qf.Distinct(groupby.Columns(keys...))
+			if dist.Err != nil || dist.Len() != nkeys {
+				t.Fatalf("Distinct(%q) over %d distinct keys in %d rows: %d rows (Err %v) (key=i*%d+%d)", keys, nkeys, n, dist.Len(), dist.Err, mul, off)
+			}
+			kv, iv, sv, bv := dist.MustIntView("k"), dist.MustIntView("id"), dist.MustStringView("s"), dist.MustBoolView("b")
+			seen := make(map[int]bool, nkeys)
+			for r := 0; r < dist.Len(); r++ {
+				key, row := kv.ItemAt(r), iv.ItemAt(r)
+				if seen[key] {
+					t.Fatalf("Distinct(%q): key %d returned twice (key=i*%d+%d)", keys, key, mul, off)
+				}
+				seen[key] = true
+				if row < 0 || row >= n || k[row] != key || *sv.ItemAt(r) != s[row] || bv.ItemAt(r) != b[row] {
+					t.Fatalf("Distinct(%q): returned row with id %d is not an input row (key=i*%d+%d)", keys, row, mul, off)
+				}
+			}
+		}
+		evC05.CaseHash(true, seed+uint64(nkeys), func() string {
+			return fmt.Sprintf("large: %d distinct keys in %d rows, key=i*%d+%d, keys k / s / (b,k)", nkeys, n, mul, off)
+		}, "large-volume-case")
+	}
 }
